@@ -35,25 +35,27 @@ theorem utf8Encode_bytes (s : List Char) : Bytes (utf8Encode s) := by
   obtain ⟨c, _, hc⟩ := hb
   exact utf8EncodeChar_bytes c b hc
 
-
 /-! ### Unfolding `utf8Decode` one step
 
 `utf8Decode` is compiled by structural recursion (`List.brecOn … utf8Decode._f`).  Its equation
-lemmas cannot be generated (the default unfolding evaluates `mkChar (… * 262144 + …)` on open
-terms), so the step is unfolded by hand: the `brecOn` plumbing generically in the functional `F`,
-then `utf8Decode._f` with the table of recursive results kept opaque. -/
+lemmas cannot be generated (`utf8Decode.eq_def` runs out of recursion depth), and a plain `rfl`
+unfolding makes the kernel reduce the matcher on `mkChar (… * 262144 + …)` with open terms, i.e.
+evaluate `Nat.mul _ 262144` in unary (~20 s).  So the step is unfolded by hand: the `brecOn`
+plumbing generically in the functional `F`, then `utf8Decode._f` with the table of recursive
+results kept opaque (`f_gen`), so that every `match mkChar _, _ with` node is only ever rewritten
+propositionally until its first discriminant is `some c`. -/
 
 universe u v
 
-theorem brecOn_cons {α : Type u} {motive : List α → Sort v}
+private theorem brecOn_cons {α : Type u} {motive : List α → Sort v}
     (F : (t : List α) → List.below (motive := motive) t → motive t) (b : α) (rest : List α) :
     List.brecOn (b :: rest) F = F (b :: rest) (List.brecOn.go rest F) := rfl
 
-theorem go_cons {α : Type u} {motive : List α → Sort v}
+private theorem go_cons {α : Type u} {motive : List α → Sort v}
     (F : (t : List α) → List.below (motive := motive) t → motive t) (h : α) (t : List α) :
     List.brecOn.go (h :: t) F = ⟨List.brecOn (h :: t) F, List.brecOn.go t F⟩ := rfl
 
-theorem go_eta {α : Type u} {motive : List α → Sort v}
+private theorem go_eta {α : Type u} {motive : List α → Sort v}
     (F : (t : List α) → List.below (motive := motive) t → motive t) (l : List α) :
     List.brecOn.go l F = ⟨List.brecOn l F, (List.brecOn.go l F).2⟩ := rfl
 
@@ -66,7 +68,7 @@ theorem utf8Decode_cons_f (b : Nat) (rest : List Nat) :
   rw [← utf8Decode_def, brecOn_cons]
 
 /-- generalise the table of recursive results -/
-theorem f_gen (L : List Nat) (g : List.below (motive := fun _ => Option (List Char)) L)
+private theorem f_gen (L : List Nat) (g : List.below (motive := fun _ => Option (List Char)) L)
     (R : Option (List Char)) (h : ∀ g', g = g' → utf8Decode._f L g' = R) :
     utf8Decode._f L g = R := h g rfl
 
@@ -82,8 +84,6 @@ theorem consOpt_some (c : Char) (o : Option (List Char)) :
 theorem isCont_low (k : Nat) : isCont (0x80 + k % 64) = true := by
   simp [isCont]; omega
 
-set_option diagnostics true in
-set_option diagnostics.threshold 50 in
 /-- Decoding the encoding of one char followed by `rest`. -/
 theorem utf8Decode_encodeChar_append (c : Char) (rest : List Nat) :
     utf8Decode (Wire.utf8EncodeChar c ++ rest) = (utf8Decode rest).map (c :: ·) := by
